@@ -1,7 +1,8 @@
 //! Executes protocol ops against the real crate, in-process, and produces for every op the line
 //! handed to the model driver and the implementation's canonical output line.
 use crate::proto::*;
-use pricelevel::{MatchResult, OrderId, PriceLevel, Side, Transaction, UuidGenerator};
+use pricelevel::{MatchResult, OrderId, OrderQueue, PriceLevel, Side, Transaction, UuidGenerator};
+use std::sync::Arc;
 use std::collections::HashMap;
 use std::panic::{AssertUnwindSafe, catch_unwind};
 use uuid::Uuid;
@@ -40,6 +41,7 @@ pub struct Exec {
     pub generator: UuidGenerator,
     pub txids: TxIds,
     pub out: Vec<(String, String)>,
+    pub queue: OrderQueue,
     // what the observer has counted so far on this level (for the judges)
     pub price: u64,
     pub issued: u64,
@@ -107,6 +109,7 @@ impl Exec {
             generator: UuidGenerator::new(Uuid::from_u128(NS)),
             txids: TxIds::new(),
             out: Vec::new(),
+            queue: OrderQueue::new(),
             price: 0,
             issued: 0,
             n_adds: 0,
@@ -214,6 +217,8 @@ impl Exec {
                             "J C02 ok",
                         );
                         self.emit(format!("judge.C06 {} {} {} {} {}", q, txs, r.remaining_quantity, pre, post), "J C06 ok");
+                        let makers: Vec<String> = r.transactions.as_vec().iter().map(|t| format!("{}:{}", show_id(&t.maker_order_id), t.quantity)).collect();
+                        self.emit(format!("judge.C04 [{}]", makers.join(",")), "J C04 ok");
                         self.issued += r.transactions.as_vec().len() as u64;
                         self.sum_exec += r.transactions.as_vec().iter().map(|t| t.quantity as u128).sum::<u128>();
                         self.judge_stats();
@@ -249,6 +254,50 @@ impl Exec {
                 let post = listing(&self.lvl);
                 self.emit(format!("judge.C07 {} {} {} {} {}", self.price, pre, post, outtok, rest.join(" ")), "J C07 ok");
                 self.judge_stats();
+            }
+            ["qnew"] => {
+                self.queue = OrderQueue::new();
+                self.emit(line, "qnew");
+            }
+            [qop, rest @ ..] if qop.starts_with("q.") => {
+                let r = catch_unwind(AssertUnwindSafe(|| -> Option<String> {
+                    Some(match (*qop, rest) {
+                        ("q.push", [o]) => {
+                            self.queue.push(Arc::new(parse_order(o)?));
+                            "q.push".to_string()
+                        }
+                        ("q.fromvec", [l]) => {
+                            let inner = l.strip_prefix('[')?.strip_suffix(']')?;
+                            let mut v = Vec::new();
+                            if !inner.is_empty() {
+                                for t in inner.split(',') {
+                                    v.push(Arc::new(parse_order(t)?));
+                                }
+                            }
+                            self.queue = OrderQueue::from_vec(v);
+                            "q.fromvec".to_string()
+                        }
+                        ("q.pop", []) => format!("q.pop {}", show_opt_order(self.queue.pop().as_deref())),
+                        ("q.find", [id]) => format!("q.find {}", show_opt_order(self.queue.find(parse_id(id)?).as_deref())),
+                        ("q.remove", [id]) => format!("q.remove {}", show_opt_order(self.queue.remove(parse_id(id)?).as_deref())),
+                        ("q.len", []) => format!("q.len {}", self.queue.len()),
+                        ("q.isempty", []) => format!("q.isempty {}", if self.queue.is_empty() { 1 } else { 0 }),
+                        ("q.tovec", []) => {
+                            let mut v: Vec<Order> = self.queue.to_vec().iter().map(|a| **a).collect();
+                            canon_sort(&mut v);
+                            format!("q.tovec {}", show_list(&v, show_order))
+                        }
+                        _ => return None,
+                    })
+                }));
+                match r {
+                    Ok(Some(outl)) => {
+                        self.emit(line, outl.clone());
+                        self.emit(format!("judge.C19 {outl}"), "J C19 ok");
+                    }
+                    Ok(None) => return false,
+                    Err(_) => self.emit(line, "PANIC"),
+                }
             }
             ["read", kind] => {
                 // read-only calls: must not change any later result (C07); outputs are not compared here
